@@ -12,13 +12,22 @@ known = ['| property | signature | what fails | witness (protocol ops) |', '|---
 for d in sorted([d for d in kf if d['status'] == 'known'], key=lambda d: d['property']):
     w = '; '.join(d.get('witness', {}).get('ops', []))[:160]
     known.append(f"| {d['property']} | `{d['signature']}` | {esc(d['what'])[:420]} | `{esc(w)}` |")
-seeds = ['| seed | property | what the change does (agent\'s words) | needs, to manifest | demo clean/patched | suite ok | caught by quick check | with failing input |', '|---|---|---|---|---|---|---|---|']
+seeds = ['| seed | property | what the change does (agent\'s words) | needs, to manifest | demo clean/patched | suite ok | caught by quick check when first verified | with failing input | re-check against the current tree and checks |', '|---|---|---|---|---|---|---|---|---|']
 for f in sorted(glob.glob(f'{R}/seeded/*/meta.json')):
     m = json.load(open(f)); sid = os.path.basename(os.path.dirname(f)); am = m.get('agent_meta', {})
     c = m['confirmed']; k = m['check']
+    try:
+        rc = json.load(open(os.path.join(os.path.dirname(f), 'recheck.json')))
+        if rc.get('disposition'): rtxt = rc['disposition']
+        elif not rc['patch_applies']: rtxt = 'stale patch'
+        else: rtxt = ('caught' + (' with failing input' if rc['caught_with_failing_input'] else ' (no failing input)')) if rc['caught'] else 'MISSED'
+        rtxt += f" (/repo {rc['repo_head']})"
+    except Exception:
+        rtxt = '–'
+    cc = m.get('cross_check')
     seeds.append(f"| {sid} | {m['property']} | {esc(str(am.get('what_it_breaks','')))[:260]} | {esc(str(am.get('needs_to_manifest','')))[:260]} | "
                  f"{c['demo_rc_clean']}/{c['demo_rc_patched']} | {'yes' if c['suite_stable_set_ok_with_patch'] else 'NO'} | "
-                 f"{'yes' if k['caught'] else 'no'} | {'yes' if k['caught_with_failing_input'] else 'no'} |")
+                 f"{'yes' if k['caught'] else 'no'}{' (by ./check ' + cc['by_property'] + ')' if cc else ''} | {'yes' if k['caught_with_failing_input'] else 'no'} | {esc(rtxt)} |")
 man = json.load(open(f'{R}/MANIFEST.json'))
 cov = ['| property | theorems (obligations = discharged) | cases / protocol lines in the last quick run | known findings | what is decided |', '|---|---|---|---|---|']
 def mt(pid):
